@@ -30,6 +30,72 @@ func recountBundle(b *icl.Bundle) recount {
 	return r
 }
 
+// verifyControls compares every control record of a built file with an independent recount and the
+// file control's record count with what the real Writer emits.
+func verifyControls(f *icl.File, rep *Report, rp map[string]any, phase string) {
+	total := 2
+	fItems, fAmount := 0, 0
+	hasCI := false
+	for ci := range f.CashLetters {
+		cl := &f.CashLetters[ci]
+		total += 2 + len(cl.CreditItems) + len(cl.Credits) + len(cl.RoutingNumberSummary)
+		clItems, clAmount, clImages := 0, 0, 0
+		if len(cl.CreditItems) > 0 {
+			hasCI = true
+			rep.count(phase + "with-credit-items")
+		}
+		if len(cl.Credits) > 0 {
+			rep.count(phase + "with-credits")
+		}
+		if len(cl.RoutingNumberSummary) > 0 {
+			rep.count(phase + "with-rns")
+		}
+		for bi, b := range cl.Bundles {
+			total += 2
+			rc := recountBundle(b)
+			for _, cd := range b.Checks {
+				total += 1 + len(cd.CheckDetailAddendumA) + len(cd.CheckDetailAddendumB) + len(cd.CheckDetailAddendumC) + len(cd.ImageViewDetail) + len(cd.ImageViewData) + len(cd.ImageViewAnalysis)
+			}
+			for _, rd := range b.Returns {
+				total += 1 + len(rd.ReturnDetailAddendumA) + len(rd.ReturnDetailAddendumB) + len(rd.ReturnDetailAddendumC) + len(rd.ReturnDetailAddendumD) + len(rd.ImageViewDetail) + len(rd.ImageViewData) + len(rd.ImageViewAnalysis)
+			}
+			bc := b.BundleControl
+			if bc.BundleItemsCount != rc.items || bc.BundleTotalAmount != rc.amount || bc.BundleImagesCount != rc.images || bc.MICRValidTotalAmount != rc.micrValid {
+				rep.violate(Violation{Key: "C06:bundle-control" + phase, What: fmt.Sprintf("bundle control %d/%d disagrees with a recount: have items=%d amount=%d images=%d micr=%d, recount %+v", ci+1, bi+1, bc.BundleItemsCount, bc.BundleTotalAmount, bc.BundleImagesCount, bc.MICRValidTotalAmount, rc), Replay: rp})
+			}
+			clItems += rc.items
+			clAmount += rc.amount
+			clImages += rc.images
+		}
+		cc := cl.CashLetterControl
+		wantItems := clItems
+		if cc.CreditTotalIndicator == 1 {
+			wantItems += len(cl.CreditItems)
+		}
+		if cc.CashLetterBundleCount != len(cl.Bundles) || cc.CashLetterItemsCount != wantItems || cc.CashLetterTotalAmount != clAmount || cc.CashLetterImagesCount != clImages {
+			rep.violate(Violation{Key: "C06:cash-letter-control" + phase, What: fmt.Sprintf("cash letter control %d disagrees with a recount: have bundles=%d items=%d amount=%d images=%d; recount bundles=%d items=%d amount=%d images=%d (credit indicator %d)", ci+1, cc.CashLetterBundleCount, cc.CashLetterItemsCount, cc.CashLetterTotalAmount, cc.CashLetterImagesCount, len(cl.Bundles), wantItems, clAmount, clImages, cc.CreditTotalIndicator), Replay: rp})
+		}
+		fItems += clItems
+		fAmount += clAmount
+	}
+	fc := f.Control
+	_ = hasCI
+	if fc.CashLetterCount != len(f.CashLetters) || fc.TotalItemCount != fItems || fc.FileTotalAmount != fAmount {
+		rep.violate(Violation{Key: "C06:file-control" + phase, What: fmt.Sprintf("file control disagrees with a recount: have cashLetters=%d items=%d amount=%d; recount %d %d %d", fc.CashLetterCount, fc.TotalItemCount, fc.FileTotalAmount, len(f.CashLetters), fItems, fAmount), Replay: rp})
+	}
+	out, werr, _ := realWrite(f, encCfg{})
+	if werr == nil {
+		written := bytes.Count(out, []byte("\n"))
+		if fc.TotalRecordCount != written {
+			kinds := ""
+			if fc.TotalRecordCount != total {
+				kinds = fmt.Sprintf(" (independent count %d)", total)
+			}
+			rep.violate(Violation{Key: "C06:total-record-count" + phase, What: fmt.Sprintf("FileControl.TotalRecordCount = %d but the writer emits %d records%s", fc.TotalRecordCount, written, kinds), Replay: rp})
+		}
+	}
+}
+
 func runC06(cfg *config) *Report {
 	rep := newReport("C06", cfg.tier, cfg.seed)
 	r := newRng(cfg.seed + 6000)
@@ -51,67 +117,8 @@ func runC06(cfg *config) *Report {
 		d := dumpFile(f)
 		rep.nontrivial(d)
 		rp := map[string]any{"tree": d}
-		total := 2
-		fItems, fAmount := 0, 0
-		hasCI := false
-		for ci := range f.CashLetters {
-			cl := &f.CashLetters[ci]
-			total += 2 + len(cl.CreditItems) + len(cl.Credits) + len(cl.RoutingNumberSummary)
-			clItems, clAmount, clImages := 0, 0, 0
-			if len(cl.CreditItems) > 0 {
-				hasCI = true
-				rep.count("with-credit-items")
-			}
-			if len(cl.Credits) > 0 {
-				rep.count("with-credits")
-			}
-			if len(cl.RoutingNumberSummary) > 0 {
-				rep.count("with-rns")
-			}
-			for bi, b := range cl.Bundles {
-				total += 2
-				rc := recountBundle(b)
-				for _, cd := range b.Checks {
-					total += 1 + len(cd.CheckDetailAddendumA) + len(cd.CheckDetailAddendumB) + len(cd.CheckDetailAddendumC) + len(cd.ImageViewDetail) + len(cd.ImageViewData) + len(cd.ImageViewAnalysis)
-				}
-				for _, rd := range b.Returns {
-					total += 1 + len(rd.ReturnDetailAddendumA) + len(rd.ReturnDetailAddendumB) + len(rd.ReturnDetailAddendumC) + len(rd.ReturnDetailAddendumD) + len(rd.ImageViewDetail) + len(rd.ImageViewData) + len(rd.ImageViewAnalysis)
-				}
-				bc := b.BundleControl
-				if bc.BundleItemsCount != rc.items || bc.BundleTotalAmount != rc.amount || bc.BundleImagesCount != rc.images || bc.MICRValidTotalAmount != rc.micrValid {
-					rep.violate(Violation{Key: "C06:bundle-control", What: fmt.Sprintf("bundle control %d/%d disagrees with a recount: have items=%d amount=%d images=%d micr=%d, recount %+v", ci+1, bi+1, bc.BundleItemsCount, bc.BundleTotalAmount, bc.BundleImagesCount, bc.MICRValidTotalAmount, rc), Replay: rp})
-				}
-				clItems += rc.items
-				clAmount += rc.amount
-				clImages += rc.images
-			}
-			cc := cl.CashLetterControl
-			wantItems := clItems
-			if cc.CreditTotalIndicator == 1 {
-				wantItems += len(cl.CreditItems)
-			}
-			if cc.CashLetterBundleCount != len(cl.Bundles) || cc.CashLetterItemsCount != wantItems || cc.CashLetterTotalAmount != clAmount || cc.CashLetterImagesCount != clImages {
-				rep.violate(Violation{Key: "C06:cash-letter-control", What: fmt.Sprintf("cash letter control %d disagrees with a recount: have bundles=%d items=%d amount=%d images=%d; recount bundles=%d items=%d amount=%d images=%d (credit indicator %d)", ci+1, cc.CashLetterBundleCount, cc.CashLetterItemsCount, cc.CashLetterTotalAmount, cc.CashLetterImagesCount, len(cl.Bundles), wantItems, clAmount, clImages, cc.CreditTotalIndicator), Replay: rp})
-			}
-			fItems += clItems
-			fAmount += clAmount
-		}
+		verifyControls(f, rep, rp, "")
 		fc := f.Control
-		_ = hasCI
-		if fc.CashLetterCount != len(f.CashLetters) || fc.TotalItemCount != fItems || fc.FileTotalAmount != fAmount {
-			rep.violate(Violation{Key: "C06:file-control", What: fmt.Sprintf("file control disagrees with a recount: have cashLetters=%d items=%d amount=%d; recount %d %d %d", fc.CashLetterCount, fc.TotalItemCount, fc.FileTotalAmount, len(f.CashLetters), fItems, fAmount), Replay: rp})
-		}
-		out, werr, _ := realWrite(f, encCfg{})
-		if werr == nil {
-			written := bytes.Count(out, []byte("\n"))
-			if fc.TotalRecordCount != written {
-				kinds := ""
-				if fc.TotalRecordCount != total {
-					kinds = fmt.Sprintf(" (independent count %d)", total)
-				}
-				rep.violate(Violation{Key: "C06:total-record-count", What: fmt.Sprintf("FileControl.TotalRecordCount = %d but the writer emits %d records%s", fc.TotalRecordCount, written, kinds), Replay: rp})
-			}
-		}
 		if i%131 == 0 {
 			rep.sample(map[string]any{"census": census(d), "fileControl": fmt.Sprintf("%+v", fc.String())})
 		}
@@ -132,6 +139,27 @@ func runC06(cfg *config) *Report {
 		} else {
 			built = append(built, "error")
 		}
+		// perturb the built file - content changes that keep, and that change, counts and amounts; stale
+		// values planted in the control records; a bundle given both kinds of items - and build again
+		g := deepCopyFile(f)
+		what := perturbBuilt(r, g)
+		rep.count("perturb:" + what)
+		perr := error(nil)
+		for ci := range g.CashLetters {
+			if err := g.CashLetters[ci].Create(); err != nil {
+				perr = err
+			}
+		}
+		if perr == nil {
+			perr = g.Create()
+		}
+		if perr == nil {
+			rep.Evaluations++
+			rep.nontrivial(dumpFile(g))
+			verifyControls(g, rep, map[string]any{"tree_before": d, "perturbation": what, "tree": dumpFile(g)}, ":after-rebuild")
+		} else {
+			rep.count("perturbed-rejected")
+		}
 	}
 	got, err := leanParallel(cfg.driver, lines, 16)
 	if err != nil {
@@ -146,6 +174,84 @@ func runC06(cfg *config) *Report {
 		}
 	}
 	return rep
+}
+
+// perturbBuilt edits a built file in place and says what it did.
+func perturbBuilt(r rng, g *icl.File) string {
+	cl := &g.CashLetters[r.Intn(len(g.CashLetters))]
+	b := cl.Bundles[r.Intn(len(cl.Bundles))]
+	switch r.Intn(7) {
+	case 0: // MICR-valid indicator flipped: count and amount unchanged
+		if len(b.Checks) > 0 {
+			cd := b.Checks[r.Intn(len(b.Checks))]
+			if cd.MICRValidIndicator == 1 {
+				cd.MICRValidIndicator = 2
+			} else {
+				cd.MICRValidIndicator = 1
+			}
+			return "micr-valid-indicator-flipped"
+		}
+		fallthrough
+	case 1: // one more image view on an item: count and amount unchanged
+		if len(b.Checks) > 0 {
+			cd := b.Checks[r.Intn(len(b.Checks))]
+			cd.AddImageViewDetail(baseImageViewDetail())
+			cd.AddImageViewData(mkIVData(r, genOpts{}))
+			cd.AddImageViewAnalysis(baseImageViewAnalysis())
+			return "image-view-added"
+		}
+		rd := b.Returns[r.Intn(len(b.Returns))]
+		rd.AddImageViewDetail(baseImageViewDetail())
+		rd.AddImageViewData(mkIVData(r, genOpts{}))
+		rd.AddImageViewAnalysis(baseImageViewAnalysis())
+		return "image-view-added"
+	case 2: // amounts moved between two items: total unchanged
+		if len(b.Checks) > 1 {
+			b.Checks[0].ItemAmount += 7
+			b.Checks[1].ItemAmount -= 7
+			if b.Checks[1].ItemAmount < 1 {
+				b.Checks[1].ItemAmount = 1
+			}
+			return "amount-moved"
+		}
+		fallthrough
+	case 3: // stale values planted in the control records
+		if b.BundleControl != nil {
+			b.BundleControl.MICRValidTotalAmount += 13
+			b.BundleControl.BundleImagesCount += 2
+		}
+		if cl.CashLetterControl != nil {
+			cl.CashLetterControl.CashLetterImagesCount += 5
+			cl.CashLetterControl.CashLetterItemsCount += 1
+		}
+		g.Control.TotalRecordCount += 3
+		g.Control.FileTotalAmount += 1
+		return "stale-controls"
+	case 4: // an item removed (keeps at least one)
+		if len(b.Checks) > 1 {
+			b.Checks = b.Checks[:len(b.Checks)-1]
+			return "item-removed"
+		}
+		if len(b.Returns) > 1 {
+			b.Returns = b.Returns[:len(b.Returns)-1]
+			return "item-removed"
+		}
+		fallthrough
+	case 5: // both kinds of items in one bundle
+		if len(b.Checks) > 0 {
+			b.AddReturnDetail(genReturn(r, genOpts{}))
+		} else {
+			b.AddCheckDetail(genCheck(r, genOpts{}))
+		}
+		return "mixed-bundle"
+	default: // an amount changed
+		if len(b.Checks) > 0 {
+			b.Checks[0].ItemAmount += 1000
+		} else {
+			b.Returns[0].ItemAmount += 1000
+		}
+		return "amount-changed"
+	}
 }
 
 // diffTok: first token of a that differs from b (for readable replays)
